@@ -171,3 +171,193 @@ Example from_outbuffer_example :
   monotone (cls (bseq b)) = true
   /\ exists b', unsafe_to_break_from_outbuffer b 1 4 = Ok b' /\ map gf (out b') = [fl0; fl0] /\ map gf (info b') = [fl0; fl0; fl0; m_break].
 Proof. cbv zeta. split; [reflexivity|]. eexists. repeat split; vm_compute; reflexivity. Qed.
+
+(* ====================================================================================================================
+   The property itself, for window-local rule engines (Model/Spec/Proofs LocalEngine.v) and for the modelled pieces of the
+   real engine (Model/KernMachine.v, MarkBase.v, GsubLig.v), which are tied to the Go code by the driver c18engine.
+   ==================================================================================================================== *)
+From TV Require Import Model.LocalEngine Spec.LocalEngine Proofs.LocalEngine.
+From TV Require Import Model.EngineItem Model.KernMachine Model.MarkBase Model.GsubLig.
+From TV Require Import Proofs.EngineItem Proofs.KernMachine Proofs.MarkBase Proofs.GsubLig Proofs.EnginePieces.
+From TV Require Proofs.ContextPass.
+
+(* THE CUT THEOREM.  For ANY item type, ANY direction convention `side`, ANY invariant Inv and ANY engine (list of passes,
+   any number) whose passes meet the contract step_ok (progress, invariant, clusters only merged, flags persist, and the
+   two locality + flagging obligations so_fwd / so_bwd) and do not disturb what later passes read of the context
+   (wf_engine): for every run pre ++ suf cut along a cluster value c, with any outer contexts L and R, if after all passes
+   cluster c is present and carries no unsafe-to-break flag (fog = false), then shaping the whole run equals shaping pre
+   with suf (its original text) as post-context, shaping suf with pre as pre-context, and concatenating — every field of
+   every glyph (ids, positions, clusters, flags). *)
+Theorem local_engine_cut_safe :
+  forall (A C : Type) (icl : A -> Z) (iutb : A -> bool) (side : Z -> Z -> bool) (Inv : list A -> Prop) (ps : list (@pass A C)),
+  wf_engine icl iutb side Inv ps ->
+  forall L R pre suf c,
+    Inv (pre ++ suf) -> Inv pre -> Inv suf -> cutv icl side c pre suf = true ->
+    fog icl iutb c (erun ps L R (pre ++ suf)) = false ->
+    erun ps L R (pre ++ suf) = erun ps L (suf ++ R) pre ++ erun ps (L ++ pre) R suf.
+Proof. intros A C icl iutb side Inv ps W. exact (wf_engine_cut_safe icl iutb side Inv ps W). Qed.
+Print Assumptions local_engine_cut_safe.
+
+(* the legacy kerning (uniform pass) meets the contract on every buffer with non-decreasing clusters *)
+Theorem kern_meets_contract : forall P, step_ok icl iutb sideL sorted (kern_pass P).
+Proof. exact kern_step_ok. Qed.
+Print Assumptions kern_meets_contract.
+
+(* kern() as the code runs it (cursor jumping to the second glyph of a pair, ProduceUnsafeToConcat off) IS one run of
+   that pass, on every buffer in which no glyph the kern iterator skips (mark, default ignorable) is the left glyph of a
+   non-zero pair of the table (left_okb, executable; without it the statement is false: Findings/KernLeft.v, F61) *)
+Theorem kern_code_is_the_pass : forall P L R l rec,
+  left_okb P l = true -> fst (kern_f P false l rec) = prun (kern_pass P) L R l.
+Proof. intros P L R l rec H. apply kern_f_is_pass. apply left_okb_lok. exact H. Qed.
+Print Assumptions kern_code_is_the_pass.
+
+(* hence the cut statement for the model of otApplyFallbackKern, forward buffers ... *)
+Theorem fallback_kern_cut_safe : forall P pre suf c rec,
+  sorted (pre ++ suf) -> cutv icl sideL c pre suf = true -> left_okb P (pre ++ suf) = true ->
+  let W := fst (fallback_kern_f P false false (pre ++ suf) rec) in
+  fog icl iutb c W = false ->
+  W = fst (fallback_kern_f P false false pre rec) ++ fst (fallback_kern_f P false false suf rec).
+Proof. exact Proofs.EnginePieces.fallback_kern_cut_safe. Qed.
+Print Assumptions fallback_kern_cut_safe.
+
+(* ... and backward buffers (right-to-left runs: the buffer hi ++ lo holds the later text first; kern reverses it) *)
+Theorem fallback_kern_cut_safe_backward : forall P hi lo c rec,
+  sorted (rev (hi ++ lo)) -> cutv icl sideL c (rev lo) (rev hi) = true -> left_okb P (rev (hi ++ lo)) = true ->
+  let W := fst (fallback_kern_f P false true (hi ++ lo) rec) in
+  fog icl iutb c W = false ->
+  W = fst (fallback_kern_f P false true hi rec) ++ fst (fallback_kern_f P false true lo rec).
+Proof. exact Proofs.EnginePieces.fallback_kern_cut_safe_backward. Qed.
+Print Assumptions fallback_kern_cut_safe_backward.
+
+(* GPOS mark-to-base attachment meets the contract on every buffer with non-decreasing clusters in which no glyph carries
+   the `multiplied` bit (no MultipleSubst output) *)
+Theorem markbase_meets_contract : forall P, step_ok icl iutb sideL inv_mb (mb_pass P).
+Proof. exact mb_step_ok. Qed.
+Print Assumptions markbase_meets_contract.
+
+(* GSUB single substitution and ligature substitution (matchInput with the skipping iterator, ligateInput: cluster merge of
+   the window, flags of the components taken over) meet the contract on the same buffers *)
+Theorem gsub_meets_contract : forall P, step_ok icl iutb sideL inv_mb (gs_pass P).
+Proof. exact Proofs.GsubLig.gs_step_ok. Qed.
+Print Assumptions gsub_meets_contract.
+
+(* every engine built from the modelled pieces — any number of GSUB single / ligature lookups, mark-to-base lookups and
+   kern passes with any tables, in any order — is cut-safe *)
+Theorem engine_pieces_cut_safe : forall (ps : list piece) L R pre suf c,
+  inv_mb (pre ++ suf) -> inv_mb pre -> inv_mb suf -> cutv icl sideL c pre suf = true ->
+  fog icl iutb c (erun (map piece_pass ps) L R (pre ++ suf)) = false ->
+  erun (map piece_pass ps) L R (pre ++ suf)
+  = erun (map piece_pass ps) L (suf ++ R) pre ++ erun (map piece_pass ps) (L ++ pre) R suf.
+Proof. exact pieces_cut_safe. Qed.
+Print Assumptions engine_pieces_cut_safe.
+
+(* "the following glyph is not flagged after propagateFlags" gives the premise fog = false: W the engine's output, in a
+   buffer on which a flag write was recorded *)
+Theorem unflagged_after_propagate : forall W lv c pl pc fc ft, (lv =? 2) = false -> sorted W ->
+  forall b', propagate_flags (mkB (map ig W) [] 0 false pl pc lv fc ft true) = Ok b' ->
+  (exists h, In h (info b') /\ cl h = c /\ utb (gf h) = false) ->
+  fog icl iutb c W = false.
+Proof. exact Proofs.EnginePieces.unflagged_after_propagate. Qed.
+Print Assumptions unflagged_after_propagate.
+
+(* the window flagging of the piece models IS unsafeToBreak(len a, len a + len w) of Model/Buffer.v *)
+Theorem flag_window_is_unsafe_to_break : forall lv a w b0 pl pc fc ft hg, (lv =? 2) = false -> sorted (a ++ w ++ b0) ->
+  Forall (fun x => icl x <= max_int) (a ++ w ++ b0) ->
+  exists b', unsafe_to_break (mkB (map ig (a ++ w ++ b0)) [] 0 false pl pc lv fc ft hg) (zlen a) (zlen a + zlen w) = Ok b'
+    /\ info b' = map ig (a ++ flag_window w ++ b0).
+Proof. exact Proofs.EnginePieces.flag_window_is_unsafe_to_break. Qed.
+Print Assumptions flag_window_is_unsafe_to_break.
+
+(* the context half of the contract is satisfiable by a rule that really reads the neighbouring piece: the forward half
+   of a joining rule (a joiner followed by a joiner — in the run or, at its end, in the post-context — takes its joined
+   form; design-level instance, not a model of applyArabicJoining) is a well-formed engine, hence cut-safe with the
+   pieces given each other's text as context *)
+Theorem context_reading_pass_cut_safe : forall L R pre suf c,
+  sorted (pre ++ suf) -> sorted pre -> sorted suf -> cutv icl sideL c pre suf = true ->
+  fog icl iutb c (erun [Proofs.ContextPass.join_pass] L R (pre ++ suf)) = false ->
+  erun [Proofs.ContextPass.join_pass] L R (pre ++ suf)
+  = erun [Proofs.ContextPass.join_pass] L (suf ++ R) pre ++ erun [Proofs.ContextPass.join_pass] (L ++ pre) R suf.
+Proof. exact (wf_engine_cut_safe icl iutb sideL sorted [Proofs.ContextPass.join_pass] Proofs.ContextPass.join_engine_wf). Qed.
+Print Assumptions context_reading_pass_cut_safe.
+
+(* ---- non-vacuity ---- *)
+Definition ex_it (c g u q : Z) : item := mkI (mkGX c fl0 1 0 g u q) 0 (mkP 500 0 0 0 0 0).
+Definition ex_kp : kparams := mkKP [(1, 2, -101)] 1 true.
+
+(* A V | B with the pair (A, V): the pair is kerned (the run changes), the cut before B is not flagged, and the theorem's
+   conclusion holds with both pieces non-empty; the cut inside the pair IS flagged *)
+Example kern_cut_example :
+  let pre := [ex_it 0 1 7 2; ex_it 1 2 7 2] in
+  let suf := [ex_it 2 3 7 2] in
+  let W := erun [kern_pass ex_kp] [] [] (pre ++ suf) in
+  wf_engine icl iutb sideL sorted [kern_pass ex_kp]
+  /\ W <> pre ++ suf /\ fog icl iutb 2 W = false /\ fog icl iutb 1 W = true
+  /\ W = erun [kern_pass ex_kp] [] (suf ++ []) pre ++ erun [kern_pass ex_kp] ([] ++ pre) [] suf
+  /\ map (fun x => xa (ip x)) W = [449; 450; 500].
+Proof.
+  cbv zeta. split; [apply wf_engine_unit; constructor; [apply kern_step_ok|constructor]|].
+  repeat split; try (vm_compute; reflexivity). vm_compute. discriminate.
+Qed.
+
+(* the pair seen across a ZWNJ that starts its own cluster: window [A, ZWNJ, V] flagged, both cuts unsafe (seed m1) *)
+Example kern_skip_example :
+  let l := [ex_it 0 1 7 2; ex_it 1 30 545 0; ex_it 2 2 7 2] in
+  left_okb ex_kp l = true
+  /\ map (fun x => utb (gf (ig x))) (fst (fallback_kern_f ex_kp false false l false)) = [false; true; true].
+Proof. cbv zeta. split; vm_compute; reflexivity. Qed.
+
+(* mark attached across a ZWNJ: window [base, ZWNJ, mark] flagged (seed m2) *)
+Definition ex_mb : mbparams := mkMB 0 1 [(20, 0, 10, 20)] [(1, [(true, 300, 600)])].
+Example markbase_example :
+  let l := [ex_it 0 1 7 2; ex_it 1 30 545 0; ex_it 2 20 140 8] in
+  inv_mb l
+  /\ map (fun x => (utb (gf (ig x)), xo (ip x), yo (ip x), ach (ip x))) (fst (mb_run false [ex_mb] l false))
+     = [(false, 0, 0, 0); (true, 0, 0, 0); (true, 290, 580, -2)].
+Proof.
+  cbv zeta. split; [|vm_compute; reflexivity]. split.
+  - cbn. repeat split; intros y H; cbn in H; intuition lia.
+  - repeat constructor.
+Qed.
+
+(* an engine of four passes over a text with an unflagged cut: a ligature lookup (3 + 3 -> 1, across a skipped ZWJ),
+   kerning, attachment, kerning again *)
+Definition ex_gs : gsparams := mkGS 0 1 true [] [([3; 3], 1)].
+Example gsub_example :
+  let l := [ex_it 0 3 7 2; ex_it 1 31 289 0; ex_it 2 3 7 2; ex_it 3 2 7 2] in
+  map (fun x => (icl x, igid x)) (gs_run [ex_gs] l) = [(0, 1); (0, 31); (3, 2)].
+Proof. vm_compute. reflexivity. Qed.
+
+Example pieces_example :
+  let ps := [PGsub ex_gs; PKern ex_kp; PMark ex_mb; PKern ex_kp] in
+  let pre := [ex_it 0 3 7 2; ex_it 0 31 289 0; ex_it 0 3 7 2; ex_it 0 20 140 8; ex_it 1 2 7 2] in
+  let suf := [ex_it 2 1 7 2; ex_it 3 3 7 2] in
+  let W := erun (map piece_pass ps) [] [] (pre ++ suf) in
+  W <> pre ++ suf /\ fog icl iutb 2 W = false
+  /\ W = erun (map piece_pass ps) [] (suf ++ []) pre ++ erun (map piece_pass ps) ([] ++ pre) [] suf.
+Proof. cbv zeta. repeat split; try (vm_compute; reflexivity). vm_compute. discriminate. Qed.
+
+(* propagateFlags on the output of kern_cut_example: the glyph of cluster 2 is unflagged *)
+Example propagate_example :
+  let W := erun [kern_pass ex_kp] [] [] [ex_it 0 1 7 2; ex_it 1 2 7 2; ex_it 2 3 7 2] in
+  exists b', propagate_flags (mkB (map ig W) [] 0 false 3 3 0 false false true) = Ok b'
+    /\ map (fun h => (cl h, utb (gf h))) (info b') = [(0, false); (1, true); (2, false)].
+Proof. cbv zeta. eexists. split; vm_compute; reflexivity. Qed.
+
+Example flag_window_example :
+  let a := [ex_it 0 1 7 2] in let w := [ex_it 1 1 7 2; ex_it 1 20 140 8; ex_it 2 2 7 2] in let b0 := [ex_it 3 3 7 2] in
+  exists b', unsafe_to_break (mkB (map ig (a ++ w ++ b0)) [] 0 false 5 5 0 false false false) 1 4 = Ok b'
+    /\ map (fun g => utb (gf g)) (info b') = [false; false; false; true; false]
+    /\ info b' = map ig (a ++ flag_window w ++ b0).
+Proof. cbv zeta. eexists. repeat split; vm_compute; reflexivity. Qed.
+
+(* the context is really read: the same one-glyph run, with and without a joiner as post-context; and a run whose last
+   glyph joins the outer post-context while the cut inside it is safe *)
+Example context_example :
+  let J := Proofs.ContextPass.join_pass in
+  map igid (erun [J] [] [ex_it 9 5 7 2] [ex_it 0 1 7 2]) = [101]
+  /\ map igid (erun [J] [] [] [ex_it 0 1 7 2]) = [1]
+  /\ let pre := [ex_it 0 1 7 2; ex_it 1 2 7 2] in let suf := [ex_it 2 4 7 2; ex_it 3 3 7 2] in let R := [ex_it 9 5 7 2] in
+     fog icl iutb 2 (erun [J] [] R (pre ++ suf)) = false
+     /\ map igid (erun [J] [] R (pre ++ suf)) = [1; 2; 4; 103]
+     /\ erun [J] [] R (pre ++ suf) = erun [J] [] (suf ++ R) pre ++ erun [J] ([] ++ pre) R suf.
+Proof. cbv zeta. repeat split; vm_compute; reflexivity. Qed.
